@@ -75,6 +75,12 @@ TRUSTED = [
     "probing persist / load_into, extract/encoder_fields.py); update_advertisement is stubbed (C18); the C06 oracle abstains after a restart "
     "that did not preserve the pairings (C14's statement), the model comparison does not; response.pairing_removed is compared as an observable "
     "(model: pairingRemoved), what the protocol layer does with it is C16",
+    "round 6: every whole-life history runs under a configuration {encoder, live}: application-supplied AccessoryEncoder subclasses of "
+    "harness/ref/encoders.py (exact inverses around the stock document; the file-tree tie unwraps the harness's own envelope) and a LIVE driver "
+    "(real async_persist = executor hand-off on the application-supplied loop, application-owned zeroconf instance, calls made inside the loop and "
+    "followed by waiting for the implementation's background tasks; only the TCP listener of async_start/async_stop is stubbed); lifecycle ops "
+    "stop / start of the same driver object (model: HOp.stop; start = the hash update with the observed accessories_hash); the accessory is an "
+    "application subclass whose setup_message() raises while a request is being served (hooks may fail; it works at start)",
 ]
 
 _LOOP = None
@@ -202,11 +208,17 @@ class Real:
             # add_accessory loads the state file if it exists, else writes one
             from pyhap.accessory import Accessory
 
-            class QuietAccessory(Accessory):
-                def setup_message(self):  # no QR code on the terminal
-                    pass
+            class HarnessAccessory(Accessory):
+                """An application subclass: its setup message goes to a display (no QR code on the terminal). While
+                `display_gone` is set the display is unavailable and the hook raises, as application hooks may."""
 
-            self.driver.add_accessory(QuietAccessory(self.driver, "Verif"))
+                display_gone = False
+
+                def setup_message(self):
+                    if self.display_gone:
+                        raise OSError("display unavailable")
+
+            self.driver.add_accessory(HarnessAccessory(self.driver, "Verif"))
 
     def call(self, fn, *args):
         """Call into the implementation: directly, or (live) inside the running loop, then wait for its background saves."""
@@ -304,7 +316,14 @@ class Real:
 
         def post(path: str, body: bytes):
             req = h11.Request(method="POST", target=path, headers=[("Host", "hap"), ("Content-Length", str(len(body)))])
-            r = self.call(h.dispatch, req, body)
+            acc = self.driver.accessory
+            if acc is not None and hasattr(acc, "display_gone"):
+                acc.display_gone = True  # the application's display is away while requests are served (it is there at start)
+            try:
+                r = self.call(h.dispatch, req, body)
+            finally:
+                if acc is not None and hasattr(acc, "display_gone"):
+                    acc.display_gone = False
             post.pairing_changed = bool(r.pairing_changed)
             post.pairing_removed = bool(getattr(r, "pairing_removed", False))
             return r.status_code, bytes(r.body)
